@@ -3,9 +3,18 @@ package main
 // table maps each property to its evidence level and the sub-checks that decide it.
 var table = map[string]propSpec{
 	"C02": {Level: "exploration", Parts: []partSpec{{Name: "c02-match", Bin: "plain"}, {Name: "c02-limit", Bin: "plain"}}},
-	"C01": {Level: "exploration", Parts: []partSpec{{Name: "c01-serialize", Bin: "p:c01"}, {Name: "c01-sign", Bin: "p:c01"}, {Name: "c01-tamper", Bin: "p:c01"}}},
+	"C01": {Level: "exploration", Parts: []partSpec{{Name: "c01-serialize", Bin: "p:c01"}, {Name: "c01-sign", Bin: "p:c01"}, {Name: "c01-tamper", Bin: "p:c01"}, {Name: "ws-gate", Bin: "p:ws"}}},
 	"C10": {Level: "exploration", Parts: []partSpec{{Name: "c10-tokens", Bin: "p:c10"}, {Name: "c10-mutate", Bin: "p:c10"}, {Name: "c10-roundtrip", Bin: "p:c10"}}},
 	"C11": {Level: "exploration", Parts: []partSpec{{Name: "c11-complete", Bin: "p:c11"}, {Name: "c11-sound", Bin: "p:c11"}}},
+	"C16": {Level: "model_checking", Parts: []partSpec{{Name: "cache-bfs", Bin: "p:cache"}}},
 	"C20": {Level: "exploration", Parts: []partSpec{{Name: "c20-routing", Bin: "p:c20"}, {Name: "c20-roundtrip", Bin: "p:c20"}}},
+	"C03": {Level: "model_checking", Parts: []partSpec{{Name: "cache-bfs", Bin: "p:cache"}}},
+	"C04": {Level: "model_checking", Parts: []partSpec{{Name: "cache-bfs", Bin: "p:cache"}}},
+	"C05": {Level: "model_checking", Parts: []partSpec{{Name: "cache-bfs", Bin: "p:cache"}}},
+	"C06": {Level: "model_checking", Parts: []partSpec{{Name: "sqlite-bfs", Bin: "p:sqlite"}}},
+	"C12": {Level: "exploration", Parts: []partSpec{{Name: "ws-gate", Bin: "p:ws"}, {Name: "ws-output", Bin: "p:ws"}}},
+	"C13": {Level: "model_checking", Parts: []partSpec{{Name: "ws-stall", Bin: "p:ws"}}},
+	"C14": {Level: "fault_enumeration", Parts: []partSpec{{Name: "sqlite-fault", Bin: "p:sqlite"}, {Name: "sqlite-reopen", Bin: "p:sqlite"}}},
+	"C08": {Level: "model_checking", Parts: []partSpec{{Name: "c08-merge", Bin: "inst"}}},
 	"C09": {Level: "model_checking", Parts: []partSpec{{Name: "c09-merge", Bin: "inst"}}},
 }
